@@ -19,6 +19,11 @@ LIB = ["varintTagged.c", "varintExternal.c", "varintExternalBigEndian.c", "varin
 EDGE = re.compile(r'<<\s*"EDGE",\s*"(\w+)",\s*(\d),\s*(\d+),\s*<<([\d,\s]+)>>,\s*<<([\d,\s]+)>>\s*>>', re.S)
 
 
+# deliberately wrong variants of TaggedMath.tla that Apalache must refute (the lemma is not vacuous)
+NEG_EDIT_ORDER = ("ELSE IF n = 3 THEN 249 * P(8) + (v - 2288) * P(6)", "ELSE IF n = 3 THEN 249 * P(8) + (v - 2288) * P(7)", "OrderInv")
+NEG_EDIT_RT = ("ELSE IF n = 3 THEN ((k - 249 * P(8)) \\div P(6)) + 2288", "ELSE IF n = 3 THEN ((k - 249 * P(8)) \\div P(6)) + 2287", "RoundTripInv")
+
+
 def tiers_for(tier):
     return ["pinned", "debug"] if tier == "quick" else ["pinned", "debug", "san"]
 
@@ -119,9 +124,11 @@ def check_rt(pid, tier):
         vals, r = gen_values(work, dense)
         model.add("ScalarGen", r)
         if pid == "C01":
-            model_formats(vals, model, ["RoundTrip", "LenAgrees", "FixedRoundTrip", "BoundedReader", "ZigZagRT"])
+            model_formats(vals, model, ["RoundTrip", "LenAgrees", "FixedRoundTrip", "BoundedReader", "ZigZagRT", "KeyBridge"])
+            lemmas = vlib.unbounded_lemmas(model, "TaggedMath", ["RoundTripInv", "ZigZagInv", "RangeInv"], NEG_EDIT_RT)
         else:
-            model_formats(vals, model, ["Monotone", "Shortest", "Injective", "LenAgrees"])
+            model_formats(vals, model, ["Monotone", "Shortest", "Injective", "LenAgrees", "KeyBridge"])
+            lemmas = vlib.unbounded_lemmas(model, "TaggedMath", ["OrderInv", "RoundTripInv"], NEG_EDIT_ORDER)
         nrand = 4000 if tier == "quick" else 100000   # ~60 events per value and tier: 3*10^7 events in all
         traces = drive(work, tiers_for(tier), "rt", vals, nrand)
         if pid == "C01":
@@ -142,7 +149,8 @@ def check_rt(pid, tier):
                            ["TLC evaluates ScalarBytes.tla correctly", "x86-64 little-endian host",
                             "driver logs what the library returned (window bytes, return values) unmodified",
                             "values outside the boundary domain are sampled, not enumerated"],
-                           extra={"negative_control": neg, "tiers": tiers_for(tier)})
+                           extra={"negative_control": neg, "tiers": tiers_for(tier),
+                                  "unbounded_lemmas_apalache": lemmas})
     finally:
         shutil.rmtree(work, ignore_errors=True)
 
@@ -154,7 +162,8 @@ def check_C05(tier):
     try:
         vals, r = gen_values(work, 300 if tier == "quick" else 3000)
         model.add("ScalarGen", r)
-        model_formats(vals, model, ["TaggedOrder", "TaggedPrefixFree", "Injective"])
+        model_formats(vals, model, ["TaggedOrder", "TaggedPrefixFree", "Injective", "KeyBridge"])
+        lemmas = vlib.unbounded_lemmas(model, "TaggedMath", ["OrderInv", "RangeInv"], NEG_EDIT_ORDER)
         nrand = 20000 if tier == "quick" else 1000000
         traces = drive(work, tiers_for(tier), "cmp", vals, nrand)
         events, rejects, _ = vlib.validate(traces, "ScalarTrace.tla", "ScalarTrace.cfg")
@@ -166,7 +175,8 @@ def check_C05(tier):
         return vlib.finish("C05", tier, t0, model, events, len(traces), rejects, samples, classes, rule,
                            ["memcmp over the common prefix then length is the key comparison of the caller",
                             "TLC evaluates ScalarBytes.tla correctly"],
-                           extra={"negative_control": neg, "tiers": tiers_for(tier)})
+                           extra={"negative_control": neg, "tiers": tiers_for(tier),
+                                  "unbounded_lemmas_apalache": lemmas})
     finally:
         shutil.rmtree(work, ignore_errors=True)
 
